@@ -17,6 +17,12 @@ theorem uleb_read {v : Nat} {bs : Bytes} (h : ULeb v bs) (rest : Bytes) :
   rw [← h3]
   exact Leb.unsigned_complete bs rest h1 h2 (h3 ▸ h4)
 
+theorem sleb_read {v : Int} {bs : Bytes} (h : SLeb v bs) (rest : Bytes) :
+    Leb.signed (bs ++ rest) = .ok (v, rest) := by
+  obtain ⟨h1, h2, h3, h4, h5⟩ := h
+  rw [← h3]
+  exact Leb.signed_complete bs rest h1 (Leb.sfits_of_range bs h1 h2 (h3 ▸ h4) (h3 ▸ h5))
+
 theorem reg_read {r : Reg} {bs : Bytes} (h : RegEnc r bs) (rest : Bytes) :
     readReg (bs ++ rest) = .ok (r, rest) := by
   unfold readReg
@@ -91,6 +97,10 @@ theorem parse_encodes {m : Mode} {e : Endian} {asz : Nat} {aarch64 : Bool} {p : 
   | defCfaExpression ex bx hx => simp [parse, block_read hx]
   | expression r ex br bx hr hx => simp [parse, reg_read hr, block_read hx]
   | valOffset r o br bo hr ho => simp [parse, reg_read hr, uleb_read ho]
+  | offsetExtendedSf r o br bo hr ho => simp [parse, reg_read hr, sleb_read ho]
+  | defCfaSf r o br bo hr ho => simp [parse, reg_read hr, sleb_read ho]
+  | defCfaOffsetSf o bo ho => simp [parse, sleb_read ho]
+  | valOffsetSf r o br bo hr ho => simp [parse, reg_read hr, sleb_read ho]
   | valExpression r ex br bx hr hx => simp [parse, reg_read hr, block_read hx]
   | argsSize n bn hn => simp [parse, uleb_read hn]
   | negateRaState ha => simp [parse, cfgOf, ha]
@@ -120,6 +130,11 @@ theorem uleb_sound {bs : Bytes} {v : Nat} {rest : Bytes} (h : Leb.unsigned bs = 
     ∃ pre, bs = pre ++ rest ∧ ULeb v pre := by
   obtain ⟨pre, h1, h2, h3, h4, h5⟩ := Leb.unsigned_sound bs v rest h
   exact ⟨pre, h1, h2, h3, h4.symm, h5⟩
+
+theorem sleb_sound {bs : Bytes} {v : Int} {rest : Bytes} (h : Leb.signed bs = .ok (v, rest)) :
+    ∃ pre, bs = pre ++ rest ∧ SLeb v pre := by
+  obtain ⟨pre, h1, h2, h3, h4, h5, h6⟩ := Leb.signed_sound bs v rest h
+  exact ⟨pre, h1, h2, h3, h4.symm, h5, h6⟩
 
 theorem reg_sound {bs : Bytes} {r : Reg} {rest : Bytes} (h : readReg bs = .ok (r, rest)) :
     ∃ pre, bs = pre ++ rest ∧ RegEnc r pre := by
@@ -186,12 +201,13 @@ macro "sound_of " h:ident : tactic =>
   `(tactic| first
     | exact reg_sound $h
     | exact uleb_sound $h
+    | exact sleb_sound $h
     | exact fixed_sound $h
     | exact block_sound $h)
 
 theorem parse_sound {m : Mode} {e : Endian} {asz : Nat} {aarch64 : Bool} {p : PtrParams} {pos : Nat}
     {bs : Bytes} {i : Instr} {rest : Bytes}
-    (h : parse (cfgOf m e asz aarch64 p) pos bs = .ok (i, rest)) (hs : signedOperand i = false) :
+    (h : parse (cfgOf m e asz aarch64 p) pos bs = .ok (i, rest)) :
     ∃ pre, bs = pre ++ rest ∧ Encodes e asz aarch64 i pre := by
   cases bs with
   | nil => simp [parse] at h
@@ -255,7 +271,6 @@ theorem parse_sound {m : Mode} {e : Endian} {asz : Nat} {aarch64 : Bool} {p : Pt
                    first
                     | (cases h2
                        first
-                        | (simp [signedOperand] at hs; done)
                         | (obtain ⟨pre, hp, hsz, he⟩ := address_sound h1
                            subst hp
                            exact ⟨_ :: pre, rfl, Encodes.setLoc _ _ hsz he⟩)
@@ -265,7 +280,6 @@ theorem parse_sound {m : Mode} {e : Endian} {asz : Nat} {aarch64 : Bool} {p : Pt
                     | (obtain ⟨⟨a2, r2⟩, h3, h4⟩ := bind_eq_ok h2
                        cases h4
                        first
-                        | (simp [signedOperand] at hs; done)
                         | (obtain ⟨pre1, hp1, he1⟩ : ∃ pre, tl = pre ++ r1 ∧ _ := by sound_of h1
                            obtain ⟨pre2, hp2, he2⟩ : ∃ pre, r1 = pre ++ r2 ∧ _ := by sound_of h3
                            refine exists_cons (pre := pre1 ++ pre2) (by rw [hp1, hp2, List.append_assoc]) ?_
